@@ -13,12 +13,19 @@ pub struct PanicInfo {
     pub message: String,
     pub file: String,
     pub line: u32,
+    /// For panics raised inside core/std/alloc (e.g. `i32::abs` overflow, which is not
+    /// `#[track_caller]`): the crate of the innermost decisive stack frame,
+    /// "library", "harness" or "" when no backtrace was needed / nothing decisive found.
+    pub origin: &'static str,
+    /// innermost library frame, for signatures
+    pub frame: String,
 }
 
 impl PanicInfo {
     /// Did the panic originate in the code under test (or one of its hooks)?
     pub fn in_library(&self) -> bool {
-        self.message.starts_with("lexpr_verif:")
+        self.origin == "library"
+            || self.message.starts_with("lexpr_verif:")
             || self.file.contains("/lexpr/src/")
             || self.file.contains("/serde-lexpr/src/")
             || self.file.contains("/lexpr-macros/src/")
@@ -44,8 +51,47 @@ impl PanicInfo {
             }
         }
         let f = self.file.rsplit('/').next().unwrap_or("");
+        if self.origin == "library" && !self.frame.is_empty() {
+            return format!("{}@{}", m, self.frame);
+        }
         format!("{}@{}", m, f)
     }
+}
+
+/// Walk the frames of a rendered backtrace from the innermost one and return the
+/// crate of the first frame that belongs either to the code under test or to the
+/// harness (frames of core/std/alloc and of third-party crates are skipped).
+pub fn attribute(bt: &str) -> (&'static str, String) {
+    for line in bt.lines() {
+        let t = line.trim_start();
+        let sym = match t.split_once(": ") {
+            Some((idx, rest)) if !idx.is_empty() && idx.bytes().all(|b| b.is_ascii_digit()) => rest,
+            _ => continue,
+        };
+        // leading type of `<T as Trait>::f`, with reference / pointer sigils removed
+        let mut head = sym.trim_start_matches('<');
+        loop {
+            let before = head;
+            for p in ["&mut ", "&", "*mut ", "*const ", "dyn ", "mut "] {
+                head = head.trim_start_matches(p);
+            }
+            if head == before {
+                break;
+            }
+        }
+        if head.starts_with("lexpr::") || head.starts_with("serde_lexpr::") || head.starts_with("lexpr_macros::") {
+            let short: String = sym.chars().filter(|c| !c.is_whitespace()).take(60).collect();
+            return ("library", short);
+        }
+        if head.starts_with("vh::mon::panics::") {
+            // the hook itself (innermost) and `guarded`
+            continue;
+        }
+        if head.starts_with("vh::") || head.starts_with("vcheck::") || head.starts_with("vmiri::") {
+            return ("harness", String::new());
+        }
+    }
+    ("", String::new())
 }
 
 thread_local! {
@@ -68,7 +114,17 @@ pub fn install_hook() {
                 .location()
                 .map(|l| (l.file().to_string(), l.line()))
                 .unwrap_or_else(|| ("<unknown>".to_string(), 0));
-            LAST.with(|l| *l.borrow_mut() = Some(PanicInfo { message, file, line }));
+            let by_location = file.contains("/lexpr/src/") || file.contains("/serde-lexpr/src/") || file.contains("/lexpr-macros/src/") || file.starts_with("/repo/") || file.starts_with("vh/src/") || file.contains("/verif/harness/") || message.starts_with("lexpr_verif:");
+            let (origin, frame) = if by_location {
+                ("", String::new())
+            } else {
+                let bt = std::backtrace::Backtrace::force_capture().to_string();
+                if std::env::var_os("VH_DEBUG_BACKTRACE").is_some() {
+                    eprintln!("--- panic backtrace ({})\n{}", message, bt);
+                }
+                attribute(&bt)
+            };
+            LAST.with(|l| *l.borrow_mut() = Some(PanicInfo { message, file, line, origin, frame }));
         }));
     });
 }
@@ -83,6 +139,8 @@ pub fn guarded<T>(f: impl FnOnce() -> T) -> Result<T, PanicInfo> {
             message: "<panic without hook record>".into(),
             file: "<unknown>".into(),
             line: 0,
+            origin: "",
+            frame: String::new(),
         })),
     }
 }
